@@ -40,7 +40,9 @@ def gen_scenarios(seed, tier):
     rng = random.Random(seed * 15485863 + 6)
     n = 2400 if tier == "quick" else 40000
     for i in range(n):
-        if i % 8 == 5:
+        if i % 16 == 9:
+            yield gen_resolving_cancel(rng, i)
+        elif i % 8 == 5:
             yield gen_foreign_race(rng, i)
         elif i % 4 == 3:
             yield gen_running_cancel(rng, i)
@@ -73,6 +75,36 @@ def gen_foreign_race(rng, i):
     d.update(schedule_modes(rng))
     if rng.random() < 0.5:
         d.update(mode="hold", p_switch=rng.choice([0.0, 0.02, 0.1]), trace_lines=True)
+    return d
+
+
+def gen_resolving_cancel(rng, i):
+    """cancel() lands while the future is BEING RESOLVED: its delegate has finished and the flat-map function - which will submit
+    further work and return that inner future - is still running (held on a scenario gate).  Nothing can be forwarded to yet, so
+    the cancel must be refused (False); answering True would let the inner callable start after a successful cancel."""
+    fm = ["flat_map", {"script": [[["waitev", "g0"], ["retarg"]]], "inner_submit": True}]
+    layers = [fm]
+    if rng.random() < 0.5:
+        above = rng.choice(["map", "timeout", "cancel_on_shutdown", "throttle"])
+        lay = sc.gen_layer(rng, above)
+        if above == "throttle":
+            lay[1].update(block=False, count=rng.choice([1, 2, None]))
+        if above == "timeout":
+            lay = ["timeout", {"timeout": 50.0}]
+        if above == "map":
+            lay = ["map", {"fn": True, "errfn": False, "script": [[["retarg"]]], "escript": [[["reraise"]]]}]
+        layers.append(lay)
+    c0 = [["submit", "k0", [[["ret", 1]]]], ["sleep", 0.5], ["cancel", "k0"]]
+    if rng.random() < 0.4:
+        c0.append(["cancel", "k0"])
+    c0 += [["sleep", 0.5], ["setev", "g0"]]
+    clients = [c0]
+    if rng.random() < 0.3:
+        clients.append([["sleep", 0.5], ["cancel", "k0"]])
+    d = dict(kind="stack", idx=i, base=rng.choice(["simpool1", "simpool2"]), layers=layers, clients=clients, tail=20.0,
+             seed=rng.randrange(1 << 30), family="resolving-cancel")
+    from props.common import schedule_modes
+    d.update(schedule_modes(rng))
     return d
 
 
@@ -111,6 +143,16 @@ def run_one(desc):
     s, ctx, out = sc.run_stack(desc, props=("C06", "C18"))
     hits = list(out.get("C06", []))
     hits += [h for h in out.get("C18", []) if h["sig"].startswith("C18/escaped:cancel")]
+    if desc.get("family") == "resolving-cancel":
+        first_true = None
+        for i, e in enumerate(s.log):
+            if e[1] == "ret" and e[2] == "cancel" and e[4] is True and first_true is None:
+                first_true = i
+            if first_true is not None and e[1] == "ucall" and str(e[2]).startswith("innerwork"):
+                hits.append(hit("C06/started-after-cancel-true:flat-mapped-inner", "the callable of the flat-mapped inner future started (log %d) "
+                                "after cancel() of the derived future had returned True (log %d); layers %r"
+                                % (i, first_true, [l[0] for l in desc["layers"]])))
+                break
     blocks, verd = [], []
     if desc.get("replay_model") == "retry":
         if s.end_reason == "limit":
